@@ -48,19 +48,34 @@ Lemma gen_keys_distinct :
   gen_key_subdomain = "skfem:s:"%string /\ gen_key_boundary = "skfem:b:"%string.
 Proof. repeat split. Qed.
 
-(* ---- npz key scheme: every boundary / subdomain name comes back, nothing else does *)
-Lemma npz_keys_roundtrip : forall (bn sn : list string),
+(* ---- npz key scheme: every boundary / subdomain name comes back, nothing else does, and a boundary is read back
+   as oriented exactly when its orientation flags were written *)
+Lemma npz_keys_roundtrip : forall (bn sn on : list string),
   let keys := gen_npz_fixed_keys ++ map (key_with_prefix gen_npz_save_b) bn
-                                 ++ map (key_with_prefix gen_npz_save_s) sn in
-  decode_keys gen_npz_load_b keys = bn /\ decode_keys gen_npz_load_s keys = sn.
+                                 ++ map (key_with_prefix gen_npz_save_s) sn
+                                 ++ map (key_with_prefix gen_npz_save_o) on in
+  decode_keys gen_npz_load_b keys = bn /\ decode_keys gen_npz_load_s keys = sn /\
+  forall n, In (key_with_prefix gen_npz_load_o n) keys <-> In n on.
 Proof.
-  intros bn sn keys. unfold keys. rewrite !decode_keys_app.
+  intros bn sn on keys. unfold keys.
   change gen_npz_save_b with (pre2 "b"%char "_"%char). change gen_npz_save_s with (pre2 "s"%char "_"%char).
+  change gen_npz_save_o with (pre2 "o"%char "_"%char).
   change gen_npz_load_b with (pre2 "b"%char "_"%char). change gen_npz_load_s with (pre2 "s"%char "_"%char).
-  rewrite !decode_keys_hit.
-  rewrite (decode_keys_miss "b"%char "_"%char "s"%char "_"%char) by reflexivity.
-  rewrite (decode_keys_miss "s"%char "_"%char "b"%char "_"%char) by reflexivity.
-  change (decode_keys (pre2 "b"%char "_"%char) gen_npz_fixed_keys) with (@nil string).
-  change (decode_keys (pre2 "s"%char "_"%char) gen_npz_fixed_keys) with (@nil string).
-  simpl. rewrite app_nil_r. split; reflexivity.
+  change gen_npz_load_o with (pre2 "o"%char "_"%char).
+  split; [|split].
+  - rewrite !decode_keys_app, decode_keys_hit.
+    rewrite (decode_keys_miss "b"%char "_"%char "s"%char "_"%char) by reflexivity.
+    rewrite (decode_keys_miss "b"%char "_"%char "o"%char "_"%char) by reflexivity.
+    change (decode_keys (pre2 "b"%char "_"%char) gen_npz_fixed_keys) with (@nil string).
+    simpl. rewrite !app_nil_r. reflexivity.
+  - rewrite !decode_keys_app, decode_keys_hit.
+    rewrite (decode_keys_miss "s"%char "_"%char "b"%char "_"%char) by reflexivity.
+    rewrite (decode_keys_miss "s"%char "_"%char "o"%char "_"%char) by reflexivity.
+    change (decode_keys (pre2 "s"%char "_"%char) gen_npz_fixed_keys) with (@nil string).
+    simpl. rewrite app_nil_r. reflexivity.
+  - intros n. rewrite !in_app_iff, !in_prefixed_keys. split.
+    + intros [Hf|[[Hp _]|[[Hp _]|[_ Hn]]]]; [|discriminate Hp|discriminate Hp|exact Hn].
+      exfalso. unfold gen_npz_fixed_keys in Hf. simpl in Hf.
+      destruct Hf as [Hf|[Hf|[]]]; apply (f_equal (String.substring 0 2)) in Hf; discriminate Hf.
+    + intros Hn. right. right. right. split; [reflexivity | exact Hn].
 Qed.
